@@ -19,6 +19,8 @@ class Spec:
         self.guards: List[str] = []
         #: names the logic deliberately does NOT implement (abort faults)
         self.missing: List[str] = []
+        #: explicit event alphabet to explore (None: every declared event + one undeclared)
+        self.events: Optional[List[str]] = None
         collect_names(config, self.actions, self.guards)
 
 
@@ -58,6 +60,10 @@ def collect_names(node: Config, actions: List[str], guards: List[str]) -> None:
             n = a if isinstance(a, str) else a.get("type")
             if n and not n.startswith(BUILTIN_PREFIX) and n not in actions:
                 actions.append(n)
+            if isinstance(a, dict) and n == "xstate.choose":
+                for br in (a.get("params") or {}).get("conditions", []):
+                    _guard_atoms(br.get("guard", br.get("cond")), guards)
+                    acts(br.get("actions"))
 
     def trans(x):
         for t in _as_list(x):
@@ -637,4 +643,135 @@ def family_R(seed: int, count: int) -> List[Spec]:
         if rng.random() < 0.4:
             find(cfg, fin.path)["output"] = "out_fin"
         out.append(Spec(cfg, "R", f"R-{seed}-{i}"))
+    return out
+
+
+# ---------------------------------------------------------------------------------------
+# Family E: event descriptors (C20)
+
+E_TYPES = ["a", "b", "a.a", "a.b", "b.a", "a.b.a", "a.b.b", "a.a.b", "ab", "a.bb",
+           "done.state.zz", "error.platform.zz", "after.5.zz", "xstate.init", "done", "done.invoke.q"]
+E_KEYS = ["a", "b", "a.b", "a.b.a", "a.*", "a.b.*", "b.*", "*", "ab", "done.state.zz", "done.*", "xstate.*",
+          "error.platform.zz", "a.a.*"]
+
+
+def family_E(seed: int, count: int, *, exhaustive_small=False) -> List[Spec]:
+    """Two-level machines: child with a subset of descriptor keys, parent with another subset, optional
+    guards on the more specific candidates, some keys declared null (forbidden)."""
+    rng = random.Random(seed)
+    out = []
+    for i in range(count):
+        root = Node("m", "compound")
+        p = root.add(Node("p", "compound"))
+        c1 = p.add(Node("c", "atomic"))
+        c2 = p.add(Node("d", "atomic"))
+        p.initial = "c"
+        root.initial = "p"
+        cfg = tree_to_config(root)
+        k = 0
+        for n, nkeys in ((c1, rng.randint(2, 6)), (p, rng.randint(1, 5)), (root, rng.randint(0, 2))):
+            keys = rng.sample(E_KEYS, nkeys)
+            rng.shuffle(keys)
+            on = find(cfg, n.path).setdefault("on", {})
+            for key in keys:
+                r = rng.random()
+                if r < 0.12:
+                    on[key] = None
+                    continue
+                cands = []
+                for _ in range(1 if r < 0.75 else 2):
+                    k += 1
+                    t: Dict[str, Any] = {"actions": [f"tr:{n.key}:{k}"]}
+                    if rng.random() < 0.3:
+                        t["guard"] = rng.choice(["g1", "g2"])
+                    if rng.random() < 0.15:
+                        t["target"] = "#m.p.d" if n is c1 else "#m.p.c"
+                    cands.append(t)
+                on[key] = cands if len(cands) > 1 else cands[0]
+        # way back so that both leaves are explored
+        find(cfg, c2.path).setdefault("on", {})["back"] = {"target": "#m.p.c", "actions": ["tr:back"]}
+        sp = Spec(cfg, "E", f"E-{seed}-{i}")
+        sp.events = E_TYPES + ["back", "zz"]
+        out.append(sp)
+    return out
+
+
+# ---------------------------------------------------------------------------------------
+# Family G: guard expressions (C06)
+
+G_ATOMS: List[Any] = ["ga", "gb", {"type": "ga"}, {"type": "gp", "params": {"k": "a"}},
+                      {"type": "stateIn", "params": {"state": "#m.p.c"}},
+                      {"type": "stateIn", "params": {"value": "p.d"}},
+                      {"type": "stateIn", "params": {"state": "m.q.u"}},
+                      "gmissing"]
+
+
+def _gexpr(rng: random.Random, depth: int) -> Any:
+    if depth <= 0 or rng.random() < 0.35:
+        return rng.choice(G_ATOMS)
+    op = rng.choice(["and", "or", "not"])
+    spelling = rng.choice(["children", "params.guards", "params.children"])
+    if op == "not":
+        kid = _gexpr(rng, depth - 1)
+        sp = rng.choice(["children", "params.guards", "params.guard"])
+        if sp == "children":
+            return {"type": "not", "children": [kid]}
+        if sp == "params.guards":
+            return {"type": "not", "params": {"guards": [kid]}}
+        return {"type": "not", "params": {"guard": kid}}
+    kids = [_gexpr(rng, depth - 1) for _ in range(rng.randint(2, 3))]
+    if spelling == "children":
+        return {"type": op, "children": kids}
+    if spelling == "params.guards":
+        return {"type": op, "params": {"guards": kids}}
+    return {"type": op, "params": {"children": kids}}
+
+
+def family_G(seed: int, count: int, *, depth=2) -> List[Spec]:
+    """Fixed two-level template (parallel q beside compound p so stateIn has something to look at):
+    child candidates [guarded -> X, guarded -> Y, unguarded fallback], parent handler, a choose action."""
+    rng = random.Random(seed)
+    out = []
+    for i in range(count):
+        root = Node("m", "parallel")
+        p = root.add(Node("p", "compound"))
+        c = p.add(Node("c", "atomic"))
+        d = p.add(Node("d", "atomic"))
+        x = p.add(Node("x", "atomic"))
+        p.initial = "c"
+        q = root.add(Node("q", "compound"))
+        u = q.add(Node("u", "atomic"))
+        v = q.add(Node("v", "atomic"))
+        q.initial = "u"
+        cfg = tree_to_config(root)
+        k = 0
+
+        def trans(target, guard, key="guard"):
+            nonlocal k
+            k += 1
+            t: Dict[str, Any] = {"actions": [f"tr:{k}"]}
+            if target:
+                t["target"] = target
+            if guard is not None:
+                t[key] = guard
+            return t
+
+        key = lambda: rng.choice(["guard", "guard", "cond"])
+        con = find(cfg, c.path).setdefault("on", {})
+        con["E"] = [trans("#m.p.d", _gexpr(rng, depth), key()), trans("#m.p.x", _gexpr(rng, depth), key()), trans(None, None)]
+        con["F"] = [trans("#m.p.x", _gexpr(rng, depth), key())]
+        con["EM"] = [trans("#m.p.d", "gmissing"), trans(None, None)]
+        find(cfg, p.path).setdefault("on", {})["F"] = [trans("#m.p.d", _gexpr(rng, depth - 1), key()), trans(None, None)]
+        find(cfg, p.path)["on"]["BACK"] = trans("#m.p.c", None)
+        find(cfg, q.path).setdefault("on", {})["T"] = trans("#m.q.v", None)
+        find(cfg, v.path).setdefault("on", {})["T"] = trans("#m.q.u", None)
+        # guards inside a choose action
+        k += 1
+        find(cfg, d.path).setdefault("on", {})["C"] = {"actions": [{"type": "xstate.choose", "params": {"conditions": [
+            {"guard": _gexpr(rng, depth - 1), "actions": [f"tr:ch:{k}:a"]},
+            {"cond": _gexpr(rng, 0), "actions": [f"tr:ch:{k}:b"]},
+            {"actions": [f"tr:ch:{k}:c"]}]}}, f"tr:after_choose:{k}"]}
+        sp = Spec(cfg, "G", f"G-{seed}-{i}")
+        sp.missing = ["gmissing"]
+        out.append(sp)
     return out
